@@ -89,6 +89,11 @@ func (g *jgen) c10Response(sp *dialect.Spec, tag string, lines *[]string, pkg st
 	}
 	if pl.kind == "json" {
 		r.Content = "application/json"
+		// every third JSON response also declares other media types (sorting before and after application/json): JSON is what is written
+		switch rng.Intn(3) {
+		case 0:
+			r.AlsoContent = [][]string{{"text/csv"}, {"application/cbor", "text/plain"}, {"application/xml", "application/a"}}[rng.Intn(3)]
+		}
 		r.Schema = pl.body.Dialect(&sp.CompSchemas)
 		pl.ctype = r.Content
 		*lines = append(*lines, "J "+pkg+" "+pl.bname+" "+pl.body.Model())
